@@ -51,7 +51,7 @@ contract(CP + "backtrack",
            "triggered_propagators": "bool[P]", "triggers": "u8[D,P]"},
     result="bool", props=["C09", "C17", "C16", "C07", "C08"],
     requires=["H >= 1 and H <= 256", "stacks_top[0] < H",
-              "forall(l, 0, H, dom_update_stack[l, DOM_UPDATE_IDX] < D and dom_update_stack[l, DOM_UPDATE_EVENTS] < 8)"],
+              "forall(l, 0, stacks_top[0], dom_update_stack[l, DOM_UPDATE_IDX] < D and dom_update_stack[l, DOM_UPDATE_EVENTS] < 8)"],
     modifies=["statistics", "stacks_top", "triggered_propagators"],
     ensures=[
         ("C09.fail", "implies(old(stacks_top)[0] == 0, result == False and same(stacks_top) and same(statistics) and same(triggered_propagators))"),
